@@ -10,6 +10,7 @@ import (
 	"encoding/hex"
 	"fmt"
 	"sync"
+	"sync/atomic"
 	"time"
 
 	"github.com/gauss-project/aurorafs/pkg/bmt"
@@ -191,6 +192,7 @@ func runForced(sc kit.Scenario) (begin kit.Ev, evs []kit.Ev, err error) {
 				e["returned"], e["err"], e["digest"], e["dlen"] = true, errs(r.err), hex.EncodeToString(r.d), len(r.d)
 			case <-time.After(hashTimeout):
 				e["returned"], e["err"], e["digest"], e["dlen"] = false, "", "", 0
+				atomic.AddInt32(&hangs, 1)
 			}
 			c.mu.Lock()
 			e["sends"] = c.sends
